@@ -57,7 +57,14 @@ func runC20(c *Ctx) {
 	}
 	stops := c.callsTo(cfg, false, "cdi", "(*watch).stop")
 	setups := c.callsTo(cfg, false, "cdi", "(*watch).setup")
-	starts := c.callsTo(cfg, false, "cdi", "(*watch).start")
+	// (*watch).start, if it exists, is expanded into configure before analysis: the spawn site is
+	// the go statement itself
+	var starts []ssa.CallInstruction
+	ir.Instrs(cfg, func(in ssa.Instruction) {
+		if g, ok := in.(*ssa.Go); ok {
+			starts = append(starts, g)
+		}
+	})
 	isStop := func(in ssa.Instruction) bool {
 		for _, s := range stops {
 			if s.(ssa.Instruction) == in {
@@ -103,28 +110,25 @@ func runC20(c *Ctx) {
 		ir.Instrs(fn, func(in ssa.Instruction) {
 			if g, ok := in.(*ssa.Go); ok {
 				nGo++
-				okSite := c.U.RelName(fn) == "(*watch).start"
+				okSite := fn == cfg
 				okTarget := false
 				for _, f := range c.U.Callees(g) {
 					if c.U.RelName(f) == "(*watch).watch" {
 						okTarget = true
 					}
 				}
-				r.Check("C20.2", "go-site:"+c.U.RelName(fn), okSite && okTarget, c.pos(in), "go statement in "+c.U.RelName(fn)+" (only start may spawn, and only the watch loop)")
+				r.Check("C20.2", "go-site:"+c.U.RelName(fn), okSite && okTarget, c.pos(in), "go statement in "+c.U.RelName(fn)+" (only configure - through start - may spawn, and only the watch loop)")
 				if okSite {
 					// the goroutine gets the watcher that exists at start time: w.watcher
 					d := normExpr(fn, []string{c.exprDesc(g.Call.Args[1])})[0]
-					r.Check("C20.2", "go-watcher", d == "$0.watcher", c.pos(in), "the goroutine is bound to the watcher current at start (found "+d+"): after stop() closes it, it ends")
+					r.Check("C20.2", "go-watcher", d == "$0.watch.watcher", c.pos(in), "the goroutine is bound to the watcher current at start (found "+d+"): after stop() closes it, it ends")
 				}
 			}
 		})
 	}
 	r.Check("C20.2", "go-count", nGo == 1, "", fmt.Sprintf("%d go statements in pkg/cdi (one expected)", nGo))
-	startFn := c.U.Func("cdi", "(*watch).start")
-	if startFn != nil {
-		sites := c.U.CallSitesOf(startFn)
-		okSites := len(sites) == 1 && len(starts) == 1
-		r.Check("C20.2", "start-sites", okSites, c.U.Pos(startFn.Pos()), fmt.Sprintf("start is called from %d site(s), %d in configure (exactly one, in configure)", len(sites), len(starts)))
+	{
+		r.Check("C20.2", "start-sites", len(starts) == 1, c.U.Pos(cfg.Pos()), fmt.Sprintf("%d go statement(s) in configure (exactly one)", len(starts)))
 		for _, s := range starts {
 			gs := normExpr(cfg, c.exprGuardsOf(cfg, s.(ssa.Instruction)))
 			var auto bool
@@ -142,11 +146,11 @@ func runC20(c *Ctx) {
 			r.Check("C20.2", "start-guard", auto && len(extra) == 0 && afterSetup, c.pos(s), fmt.Sprintf("the goroutine is started exactly when auto-refresh is on, after setup (conditions %v)", gs))
 			// mutex and refresh of this cache
 			a := s.Common().Args
-			okArgs := len(a) == 4 && normExpr(cfg, []string{c.exprDesc(a[1])})[0] == "$0.Mutex" && normExpr(cfg, []string{c.exprDesc(a[3])})[0] == "$0.dirErrors"
+			okArgs := len(a) == 5 && normExpr(cfg, []string{c.exprDesc(a[2])})[0] == "$0.Mutex" && normExpr(cfg, []string{c.exprDesc(a[4])})[0] == "$0.dirErrors"
 			bound := false
-			if len(a) == 4 {
-				if mc, ok := a[2].(*ssa.MakeClosure); ok && len(mc.Bindings) == 1 && mc.Bindings[0] == ssa.Value(cfg.Params[0]) {
-					for _, f := range c.U.FuncValues(a[2]) {
+			if len(a) == 5 {
+				if mc, ok := a[3].(*ssa.MakeClosure); ok && len(mc.Bindings) == 1 && mc.Bindings[0] == ssa.Value(cfg.Params[0]) {
+					for _, f := range c.U.FuncValues(a[3]) {
 						if c.U.RelName(f) == "(*Cache).refresh" {
 							bound = true
 						}
@@ -386,42 +390,69 @@ func runC20(c *Ctx) {
 	}
 
 	// ---- C20.6
-	if dc := c.fn("C20.6", "cdi", "Configure"); dc != nil {
-		gets := c.callsTo(dc, false, "cdi", "getOrCreateDefaultCache")
-		cfs := c.callsTo(dc, false, "cdi", "(*Cache).Configure")
-		ok := len(gets) == 1 && len(cfs) == 1
-		if ok {
-			ok = gets[0].Common().Args[0] == ssa.Value(dc.Params[0]) && cfs[0].Common().Args[1] == ssa.Value(dc.Params[0])
-			gs := normExpr(dc, c.exprGuardsOf(dc, cfs[0].(ssa.Instruction)))
-			ok = ok && sameSet(gs, []string{"!getOrCreateDefaultCache($0)#1", "nonempty($0)"})
-			recv := normExpr(dc, []string{c.exprDesc(cfs[0].Common().Args[0])})[0]
-			ok = ok && recv == "getOrCreateDefaultCache($0)#0"
-		}
-		r.Check("C20.6", "default-Configure", ok, c.U.Pos(dc.Pos()), "cdi.Configure hands the options to the cache's creation, or - only if the cache already existed - to its Configure")
-	}
-	if goc := c.fn("C20.6", "cdi", "getOrCreateDefaultCache"); goc != nil {
-		okOnce := false
-		for _, call := range ir.Calls(goc) {
+	// (getOrCreateDefaultCache, if it exists, is expanded into its callers before analysis:
+	// the rule reads the same whether that wrapper exists or its body is written out)
+	onceDo := func(fn *ssa.Function) (ssa.CallInstruction, *ssa.Function) {
+		for _, call := range ir.Calls(fn) {
 			if f := call.Common().StaticCallee(); f != nil && f.String() == "(*sync.Once).Do" {
 				for _, body := range c.U.FuncValues(call.Common().Args[1]) {
-					var newc, created bool
-					for _, cl := range c.callsTo(body, false, "cdi", "newCache") {
-						if strings.HasPrefix(c.exprDesc(cl.Common().Args[0]), "$options") || strings.Contains(c.exprDesc(cl.Common().Args[0]), "options") {
-							newc = true
-						}
-					}
-					ir.Instrs(body, func(in ssa.Instruction) {
-						if st, ok := in.(*ssa.Store); ok {
-							if b, isB := ir.ConstBool(st.Val); isB && b {
-								created = true
-							}
-						}
-					})
-					okOnce = newc && created
+					return call, body
 				}
 			}
 		}
-		r.Check("C20.6", "create-once", okOnce, c.U.Pos(goc.Pos()), "the default cache is created once (sync.Once) with the options of that first call, which is reported as 'created'")
+		return nil, nil
+	}
+	var onceVars []string
+	if dc := c.fn("C20.6", "cdi", "Configure"); dc != nil {
+		cfs := c.callsTo(dc, false, "cdi", "(*Cache).Configure")
+		ok := len(cfs) == 1
+		detail := ""
+		if ok {
+			ok = normExpr(dc, []string{c.exprDesc(cfs[0].Common().Args[1])})[0] == "$0"
+			gs := normExpr(dc, c.exprGuardsOf(dc, cfs[0].(ssa.Instruction)))
+			recv := normExpr(dc, []string{c.exprDesc(cfs[0].Common().Args[0])})[0]
+			detail = fmt.Sprintf(" (conditions %v, receiver %s)", gs, recv)
+			// the flag: a local bool that is false unless the creating closure sets it
+			for i, g := range gs {
+				if g == "!false|true" {
+					gs[i] = "!var:created"
+				}
+			}
+			ok = ok && sameSet(gs, []string{"!var:created", "nonempty($0)"}) && recv == "defaultCache"
+		}
+		r.Check("C20.6", "default-Configure", ok, c.U.Pos(dc.Pos()), "cdi.Configure hands the options to the cache's creation, or - only if the cache already existed - to its Configure"+detail)
+		call, body := onceDo(dc)
+		okOnce := false
+		if call != nil && body != nil {
+			onceVars = append(onceVars, c.exprDesc(call.Common().Args[0]))
+			var newc, created bool
+			for _, cl := range c.callsTo(body, false, "cdi", "newCache") {
+				if strings.Contains(c.exprDesc(cl.Common().Args[0]), "options") {
+					newc = true
+				}
+			}
+			ir.Instrs(body, func(in ssa.Instruction) {
+				if st, ok := in.(*ssa.Store); ok {
+					if b, isB := ir.ConstBool(st.Val); isB && b && strings.Contains(c.exprDesc(st.Addr), "created") {
+						created = true
+					}
+					if _, isCall := st.Val.(*ssa.Call); isCall && c.exprDesc(st.Addr) != "&defaultCache" && c.exprDesc(st.Addr) != "defaultCache" {
+						newc = false
+					}
+				}
+			})
+			okOnce = newc && created
+		}
+		r.Check("C20.6", "create-once", okOnce, c.U.Pos(dc.Pos()), "the default cache is created once (sync.Once) with the options of that first call, which is reported as 'created'")
+	}
+	if gd := c.fn("C20.6", "cdi", "GetDefaultCache"); gd != nil {
+		call, body := onceDo(gd)
+		ok := call != nil && body != nil && len(c.callsTo(body, false, "cdi", "newCache")) == 1
+		if ok {
+			onceVars = append(onceVars, c.exprDesc(call.Common().Args[0]))
+		}
+		same := len(onceVars) == 2 && onceVars[0] == onceVars[1]
+		r.Check("C20.6", "get-creates-once", ok && same, c.U.Pos(gd.Pos()), fmt.Sprintf("GetDefaultCache creates the default cache under the same sync.Once as Configure (%v)", onceVars))
 	}
 }
 
